@@ -334,6 +334,23 @@ def c14_cases(tier):
             n[0] += 1
             dup = vs in (['A = 5', 'B', 'C = 6'], ['A = 3', 'B = 2', 'C'])
             out.append(case('c14_%04d' % n[0], 'C14', 'implicit/%s' % cfg, enum_src(['#[enum_tools(into, %s)]' % cfg], 'i64', vs), 'reject' if (dup or not ok) else 'accept', 'any' if dup else 'derive', note=' '.join(vs)))
+    # every way of mixing implicit and explicit discriminants: 3 variants over {implicit, -2, 0, 1, 2, 5}, 4 variants over {implicit, -1, 3}
+    # (the value of an implicit variant is the compiler's: previous + 1, 0 for the first)
+    for k, alphabet in ((3, (None, -2, 0, 1, 2, 5)), (4, (None, -1, 3))):
+        for spec in itertools.product(alphabet, repeat=k):
+            vals = []
+            last = -1
+            for x in spec:
+                last = last + 1 if x is None else x
+                vals.append(last)
+            if len(set(vals)) != len(vals):
+                continue            # duplicate discriminants: rustc's own error, not this property
+            by_value = all(a < b for a, b in zip(vals, vals[1:]))
+            ids = ['A', 'B', 'C', 'D'][:k]
+            vs = ['%s%s' % (i, '' if x is None else ' = %d' % x) for i, x in zip(ids, spec)]
+            for cfg, ok in (('sorted(value)', by_value), ('sorted(value, name)', by_value)):
+                n[0] += 1
+                out.append(case('c14_%04d' % n[0], 'C14', 'mixed-implicit%d/%s' % (k, cfg), enum_src(['#[enum_tools(into, %s)]' % cfg], 'i64', vs), 'accept' if ok else 'reject', 'derive', note=' '.join(vs)))
     return out
 
 def render_batch(cases):
